@@ -61,7 +61,7 @@ var c16routes = []string{"name", "alias", "param", "computed", "apply", "map", "
 var c16earlier string
 
 // enumeration switches read by c16program (set by the enumerator and by replay)
-var c16lazyRestName, c16quotedArgs bool
+var c16lazyRestName, c16quotedArgs, c16arrayArgs bool
 
 func c16program(lazy []bool, use []string, variadic bool, route string, failAt int, extra int) []*T {
 	c16earlier = ""
@@ -99,6 +99,9 @@ func c16program(lazy []bool, use []string, variadic bool, route string, failAt i
 		} else {
 			if zero {
 				args = append(args, fmt.Sprintf("(t %d (- v 5))", i+1))
+			} else if c16arrayArgs {
+				// the argument is an array literal whose elements have to be evaluated (in the caller's scope, when forced)
+				args = append(args, fmt.Sprintf("[v (t %d (+ v %d)) (+ v 1)]", i+1, i+1))
 			} else if c16quotedArgs {
 				// values that are not self-evaluating: forcing a wrapped *value* must not evaluate it again
 				switch i % 3 {
@@ -309,7 +312,7 @@ func init() {
 		ID:    "C16",
 		Level: "exploration",
 		Rule: "every signature of 1..3 parameters each strict or lazy, with and without a variadic tail x every assignment of a usage {none, force, force twice, substitute, closure forcing after return, force under a shadowing let} " +
-			"to the lazy parameters x 11 call routes {name, alias, parameter, computed callee, apply, map, tail self-call, non-tail recursion, strict twin called twice, and name / tail self-call after redefining a function whose lazy positions were the opposite} x {no failing argument, argument j fails} x {integer arguments, arguments whose values are lists / symbols / arrays} x 0..2 variadic extras x {tail named r, tail named #r}; " +
+			"to the lazy parameters x 11 call routes {name, alias, parameter, computed callee, apply, map, tail self-call, non-tail recursion, strict twin called twice, and name / tail self-call after redefining a function whose lazy positions were the opposite} x {no failing argument, argument j fails} x {integer arguments, arguments whose values are lists / symbols / arrays, array-literal arguments} x 0..2 variadic extras x {tail named r, tail named #r}; " +
 			"arguments are traced host calls reading the caller's variable; value, error and trace compared with the reference evaluator (thunk + memo + caller's scope)",
 		Assumptions: []string{"R1 models lazy parameters as memoised thunks over the caller's scope; apply/map wrap evaluated values; the typed func declaration route is not generated"},
 		Run: func(c *engine.Ctx) {
@@ -318,16 +321,19 @@ func init() {
 				for _, route := range c16routes {
 					for failAt := -2; failAt < len(lazy); failAt++ {
 						for extra := 0; extra <= 2; extra++ {
-							for _, mode := range [][2]bool{{false, false}, {true, false}, {false, true}} {
+							for mi, mode := range [][2]bool{{false, false}, {true, false}, {false, true}, {false, false}} {
 								if c.Expired() {
 									return
 								}
 								if (mode[1] && !variadic) || (mode[0] && failAt == -2) {
 									continue
 								}
-								c16quotedArgs, c16lazyRestName = mode[0], mode[1]
+								if mi == 3 && failAt == -2 {
+									continue
+								}
+								c16quotedArgs, c16lazyRestName, c16arrayArgs = mode[0], mode[1], mi == 3
 								forms := c16program(lazy, use, variadic, route, failAt, extra)
-								c16quotedArgs, c16lazyRestName = false, false
+								c16quotedArgs, c16lazyRestName, c16arrayArgs = false, false, false
 								if forms == nil {
 									continue
 								}
@@ -340,6 +346,9 @@ func init() {
 								}
 								if mode[1] {
 									key += "/#rest"
+								}
+								if mi == 3 {
+									key += "/array-literal-args"
 								}
 								for i, l := range lazy {
 									if l {
